@@ -46,6 +46,18 @@ def archetypes():
     return A
 
 
+def other_archetypes():
+    """Peers beyond the SSH-2 server: name -> (peer cfg, role, extra command-line arguments)."""
+    s1 = peers.ServerCfg(banner=b'SSH-1.5-OpenSSH_3.0', ssh1={'cmask': 0x4c, 'amask': 0x2c}, wrong_version_text=b'Protocol major versions differ.')
+    s199 = peers.ServerCfg(banner=b'SSH-1.99-OpenSSH_3.4', ssh1={'cmask': 0x48, 'amask': 0x0c}, wrong_version_text=b'Protocol major versions differ.')
+    cl = {'banner': b'SSH-2.0-OpenSSH_8.4', 'kexinit': dict(peers.DEFAULT_KEXINIT)}
+    return {
+        'ssh1-fallback': (s1, 'server', []),          # default protocol selection: SSH-2 first, then the SSH-1 fallback
+        'ssh1-only': (s199, 'server', ['-1']),
+        'client': (cl, 'client', []),
+    }
+
+
 # ---------------------------------------------------------------------------
 # byte-level faults: each is a function data -> [items]
 # ---------------------------------------------------------------------------
@@ -187,7 +199,9 @@ def mk_mutator(target_n, target_idx, fn):
     return mutate
 
 
-def scenario(cfg, skip_rate=True, extra_args=()):
+def scenario(cfg, skip_rate=True, extra_args=(), role='server'):
+    if role == 'client':
+        return {'argv': ['-n', '-c', '-p', '2222', '-t', '5'] + list(extra_args), 'clients': [cfg]}
     args = ['-n'] + (['--skip-rate-test'] if skip_rate else []) + list(extra_args) + [HOST]
     return {'argv': args, 'servers': {(HOST, 22): cfg}}
 
@@ -208,19 +222,19 @@ def record_points(cfg):
 def build(tier, rnd):
     scs, meta = [], []
     dh = rating.tables()['dheat']
-    for name, cfg in archetypes().items():
+    everything = [(n, c, 'server', []) for n, c in archetypes().items()] + [(n,) + t for n, t in other_archetypes().items()]
+    for name, cfg, role, xargs in everything:
+        def mk(c, skip_rate=True, role=role, xargs=xargs):
+            return scenario(c, skip_rate=skip_rate, extra_args=xargs, role=role)
+        Cfg = peers.ServerCfg if role == 'server' else dict
         # discover the emission points with a clean observed run
-        probe = peers.ServerCfg(cfg)
-        log = []
-
-        def rec(n, kind, idx, data, log=log):
-            return [data]
-        res = runner.run_one(dict(scenario(probe), setup=_install_recorder))
+        probe = Cfg(cfg)
+        res = runner.run_one(dict(mk(probe), setup=_install_recorder))
         pts = [(e['n'], e['idx'], e['kind'], bytes.fromhex(e['data'])) for e in res['events'] if e.get('ev') == 'srv_emit']
-        common.require(len(pts) > 3, 'could not record the emission points of archetype %s' % name)
-        scs.append(scenario(cfg))
+        common.require(len(pts) >= 2, 'could not record the emission points of archetype %s' % name)
+        scs.append(mk(cfg))
         meta.append((name, 'clean', None, cfg, True))
-        scs.append(scenario(cfg, skip_rate=False))
+        scs.append(mk(cfg, skip_rate=False))
         meta.append((name, 'clean+rate', None, cfg, False))
         for (n, idx, kind, data) in pts:
             if kind in ('banner', 'prebanner'):
@@ -233,34 +247,35 @@ def build(tier, rnd):
                 # later group-exchange connections repeat the same message shapes: sample them
                 faults = [f for j, f in enumerate(faults) if (j + n) % 4 == 0]
             for fname, fn in faults:
-                c = peers.ServerCfg(cfg)
+                c = Cfg(cfg)
                 c['mutate'] = mk_mutator(n, idx, fn)
-                scs.append(scenario(c))
+                scs.append(mk(c))
                 meta.append((name, 'conn%d/%s#%d/%s' % (n, kind, idx, fname), (n, kind), cfg, True))
         # whole-stream variations
         for dbg in (1, 2, 3):
-            c = peers.ServerCfg(cfg)
+            c = Cfg(cfg)
             c['debug'] = dbg
-            scs.append(scenario(c))
+            scs.append(mk(c))
             meta.append((name, 'debug x%d' % dbg, None, cfg, True))
         for k in (1, 2, 3):
-            c = peers.ServerCfg(cfg)
+            c = Cfg(cfg)
             c['prebanner'] = [b'Welcome line %d' % i for i in range(k)]
-            scs.append(scenario(c, skip_rate=(k != 1)))
+            scs.append(mk(c, skip_rate=(k != 1)))
             meta.append((name, 'prebanner x%d' % k, None, cfg, k != 1))
-        for seg in (1, 2, 7, 64):
-            c = peers.ServerCfg(cfg)
+        for seg in ((1, 2, 7, 64) if role == 'server' else ()):
+            c = Cfg(cfg)
             c['segment'] = seg
-            scs.append(scenario(c))
+            scs.append(mk(c))
             meta.append((name, 'segment=%d' % seg, None, cfg, True))
-        c = peers.ServerCfg(cfg)
+        c = Cfg(cfg)
         c['mutate'] = _split_at_padding
-        scs.append(scenario(c))
+        scs.append(mk(c))
         meta.append((name, 'split-at-padding', None, cfg, True))
-        c = peers.ServerCfg(cfg)
-        c['kexinit_with_banner'] = True
-        scs.append(scenario(c))
-        meta.append((name, 'kexinit-with-banner', None, cfg, True))
+        if role == 'server' and cfg.get('ssh1') is None:
+            c = Cfg(cfg)
+            c['kexinit_with_banner'] = True
+            scs.append(mk(c))
+            meta.append((name, 'kexinit-with-banner', None, cfg, True))
         # seeded random mutations of random messages
         nrand = 150 if tier == 'quick' else 1500
         for _ in range(nrand):
@@ -282,9 +297,9 @@ def build(tier, rnd):
                     elif b:
                         b[p:p + 4] = struct.pack('>I', r.choice([0, 1, 0xffffffff, 0x7fffffff, len(b)]))
                 return [bytes(b)] + ([fakenet.EOF] if r.random() < 0.5 else [])
-            c = peers.ServerCfg(cfg)
+            c = Cfg(cfg)
             c['mutate'] = mk_mutator(n, idx, fn)
-            scs.append(scenario(c))
+            scs.append(mk(c))
             meta.append((name, 'conn%d/%s#%d/randmut%d' % (n, kind, idx, seed), (n, kind), cfg, True))
     # a peer that answers every identification string, SSH-2 or SSH-1, with the protocol-mismatch text
     c = peers.ServerCfg(banner=b'SSH-1.5-Stubborn_1.0', wrong_version_always=True)
@@ -339,6 +354,11 @@ def audit_tlc(cfg, **kw):
     return tlc.run('MC_SshAudit', cfg, **kw)
 
 
+def arch_opts(name):
+    o = other_archetypes().get(name)
+    return {'argv': o[2], 'role': o[1]} if o else {'argv': [], 'role': 'server'}
+
+
 def classify(res, info, what):
     """Signature of a rejected / non-conforming run."""
     if res.get('hang'):
@@ -363,8 +383,8 @@ def run(tier):
         if res.get('harness_error'):
             raise common.Machinery('run failed in the harness: %s' % res['harness_error'])
         ck.nontrivial((name, what))
-        srv = audit.srv_of(cfg, skip, dh)
-        if res.get('exit') in (0, 2, 3) and point is not None and point[0] == 1:
+        srv = audit.srv_of(cfg, skip, dh, argv=sc['argv'], role=arch_opts(name)['role'])
+        if res.get('exit') in (0, 2, 3) and point is not None and point[0] == 1 and srv['proto'] == '2':
             # the handshake messages were tampered with: the server the tool audits is the one its own report describes
             srv = audit.srv_from_report(res, srv, dh)
         # what the tool takes the peer for is what it reports as the banner (a tampered banner changes it)
